@@ -95,6 +95,8 @@ def sym_worker(pid, hname, config, tier):
         "branch_points": ctx.n_decisions,
         "queries": ctx.n_queries,
         "solver_s": round(ctx.solver_s, 3),
+        "solver_retries": getattr(ctx, "n_retries", 0),
+        "solver_portfolio": getattr(ctx, "n_portfolio", 0),
         "obligations": ctx.n_oblig,
         "discharged": ctx.n_discharged,
         "concrete_true": ctx.n_concrete_true,
@@ -523,6 +525,8 @@ def main(argv=None):
                 "discharged": tot("discharged"),
                 "queries": tot("queries"),
                 "solver_s": round(tot("solver_s"), 2),
+                "solver_retries": tot("solver_retries"),
+                "solver_portfolio_unsat": tot("solver_portfolio"),
                 "configs": len(results),
                 "distinct_nontrivial": sum(len(v) for v in covers_seen.values()),
                 "rule": "states = feasible paths of the real code enumerated by the solver within the bounds; transitions = two-sided solver-decided branch points; distinct_nontrivial = coverage-witness labels reached (clauses of the oracle that some explored path exercises)",
@@ -554,7 +558,7 @@ def main(argv=None):
 
     print(
         f"{pid} tier={args.tier}: configs={len(results)} paths={tot('paths')} branch_points={tot('branch_points')} "
-        f"queries={tot('queries')} solver_s={tot('solver_s'):.1f} obligations={tot('obligations')} discharged={tot('discharged')} "
+        f"queries={tot('queries')} retries={tot('solver_retries')} solver_s={tot('solver_s'):.1f} obligations={tot('obligations')} discharged={tot('discharged')} "
         f"replays_ok={replay_ok} violations={len(viol_files)} known={len(known_seen)} problems={len(problems)} wall={wall:.1f}s"
     )
     if viol_files:
